@@ -265,7 +265,7 @@ int main(int argc, char **argv) {
         })));
         return c;
     });
-    bool ok = run_cases(a, ev, "c12-primitives", a.n(40000, 800000), 200, gen0, run);
+    bool ok = run_cases(a, ev, "c12-primitives", a.n(160000, 1000000), 200, gen0, run);
     if (ok) {
         auto gen1 = rc::gen::exec([=] {
             Case c; c.cfg = {1, *gx::bnd({1, 1000, 999999}, 1, 10000000, 1, 1), *gx::pick({0, 1, 1})};
@@ -285,7 +285,7 @@ int main(int argc, char **argv) {
             })));
             return c;
         });
-        ok = run_cases(a, ev, "c12-frame-flow", a.n(8000, 120000), 100, gen1, run);
+        ok = run_cases(a, ev, "c12-frame-flow", a.n(48000, 300000), 100, gen1, run);
     }
     ev.write(a.out);
     return ok ? 0 : 1;
